@@ -26,7 +26,6 @@ import (
 	"fmt"
 	"io"
 	"os"
-	"runtime/debug"
 	"strings"
 	"sync"
 	"sync/atomic"
@@ -50,7 +49,23 @@ func c07NibblesOf(n nibbles.Nibbles) []byte {
 }
 
 // c07Equiv compares a decoded node with the description; returns "" or "<shape> :: text".
+// (path "" = only the verdict is needed: a cheap pre-check avoids rendering a message)
 func c07Equiv(d *ref.C07Desc, got EncodedNode, path string) string {
+	if path == "" {
+		switch n := got.(type) {
+		case Leaf:
+			if d.Branch || int(n.PartialKey.Len()) != len(d.PK) {
+				return "differs"
+			}
+		case Branch:
+			if !d.Branch || int(n.PartialKey.Len()) != len(d.PK) {
+				return "differs"
+			}
+		default:
+			return "differs"
+		}
+		path = "node"
+	}
 	var pk nibbles.Nibbles
 	var val EncodedValue
 	var kids *[ChildrenCapacity]MerkleValue
@@ -323,7 +338,7 @@ func TestVerif_C07_codec(t *testing.T) {
 	defer r.Write()
 	maxLen := verifmc.Pick(2, 3)
 	fullLimit := verifmc.Pick(160, 1200)
-	r.Rule = fmt.Sprintf("round trip: every shape of {leaf,branch} x value {none,empty,1,32,33 inline,33 hashed,64,16384 bytes} x partial key length at every header boundary of the variant (0,1,2, max-1..max+1, max+254..max+256, max+509..max+511, last multiple, 65534, 65535 for max=63/31/15; plus 62..65,317..319,573) x 10 child configurations (inline leaf / hashed / inline branch, 1, 2 or 16 children) is encoded by the reference encoder, decoded with codec.Decode[H256] and compared field by field with its description; robustness: every byte string of length <= %d, for every valid encoding of <= %d bytes every single-byte substitution (255 values x every position), every truncation and 3 appended bytes, for longer encodings the same at every structural offset (header, key ends, bitmap, length prefixes, field starts), (inputs declaring a byte-string length above 64 KiB are executed serially for designated pk=1 shapes and counted as skipped for the others), every valid encoding through a reader that splits at every offset (<= %d bytes) and a one-byte-per-Read reader. Non-trivial = the decoder returned a node or got past the header", maxLen, fullLimit, fullLimit)
+	r.Rule = fmt.Sprintf("round trip: every shape of {leaf,branch} x value {none,empty,1,32,33 inline,33 hashed,64,16384 bytes} x partial key length at every header boundary of the variant (0,1,2, max-1..max+1, max+254..max+256, max+509..max+511, last multiple, 65534, 65535 for max=63/31/15; plus 62..65,317..319,573) x 10 child configurations (inline leaf / hashed / inline branch, 1, 2 or 16 children) is encoded by the reference encoder, decoded with codec.Decode[H256] and compared field by field with its description; robustness: every byte string of length <= %d, for every valid encoding of <= %d bytes (quick: and a partial key of <= 2 nibbles) every single-byte substitution (255 values x every position), every truncation and 3 appended bytes, for the other encodings the same at every structural offset (header, key ends, bitmap, length prefixes, field starts; quick: the first 9 of them and the last byte), (inputs declaring a byte-string length above 64 KiB are executed serially, up to 64 MiB, for 21 designated pk=1 shapes and counted as skipped otherwise), every valid encoding through a one-byte-per-Read reader, the designated shapes through a reader that splits at every offset (thorough: also every other shape at every structural offset; encodings <= %d bytes). Non-trivial = the decoder returned a node or got past the header", maxLen, fullLimit, fullLimit)
 	mon := c07NewMonitor(r, 300*time.Second)
 	defer close(mon.stop)
 
@@ -419,9 +434,10 @@ func TestVerif_C07_codec(t *testing.T) {
 	//
 	// Inputs that declare a SCALE byte-string length above 64 KiB make the SCALE decoder allocate
 	// that much (up to 1 GiB for a 30-byte input - C12's subject, not a panic or a hang).  They are
-	// recognised by an independent structural walk (ref.C07MaxDeclaredLen), executed one at a time
-	// for the designated shapes and counted as skipped for the others.
-	const heavyFrom = 64 << 10
+	// recognised by an independent structural walk (ref.C07MaxDeclaredLen); those declaring up to
+	// 64 MiB are executed one at a time for the designated shapes; the others are counted as skipped
+	// (a stated restriction of the executed space, not a sample).
+	const heavyFrom, heavyTo = 64 << 10, 64 << 20
 	var heavyMu sync.Mutex
 	readerSem := make(chan struct{}, 2)
 	verifmc.ParallelFor(r, len(shapes), func(i int) {
@@ -430,10 +446,16 @@ func TestVerif_C07_codec(t *testing.T) {
 		}
 		sh := shapes[i]
 		enc := append([]byte{}, encs[i]...) // working copy, modified in place and restored
-		full := len(enc) <= fullLimit
+		full := len(enc) <= fullLimit && (verifmc.Thorough() || len(sh.D.PK) <= 2)
 		designated := c07HeavyDesignated(sh.Name)
 		isMark := map[int]bool{}
-		for _, m := range marks[i] {
+		for j, m := range marks[i] {
+			// quick tier: the header / key ends / bitmap / first length prefix (the first 9 structural
+			// offsets) and the last byte; the value and child region of these shapes has the same
+			// layout as in the fully enumerated shapes with short partial keys
+			if !verifmc.Thorough() && j >= 9 && j != len(marks[i])-1 {
+				continue
+			}
 			isMark[m] = true
 			isMark[m+1] = true // truncation just after a structural byte
 		}
@@ -444,18 +466,15 @@ func TestVerif_C07_codec(t *testing.T) {
 		defer mon.end(task)
 		try := func(kind string, pos int, val byte, data []byte) {
 			task.at(c07Pack(kind, pos, val))
-			if ref.C07MaxDeclaredLen(data) > heavyFrom {
-				if !designated {
+			if d := ref.C07MaxDeclaredLen(data); d > heavyFrom {
+				if !designated || d > heavyTo {
 					heavySkipped++
 					return
 				}
 				heavyRun++
 				heavyMu.Lock()
 				task.at(c07Pack(kind, pos, val))
-				defer func() {
-					debug.FreeOSMemory()
-					heavyMu.Unlock()
-				}()
+				defer heavyMu.Unlock()
 			}
 			res := c07Decode(bytes.NewReader(data))
 			ev++
@@ -468,7 +487,7 @@ func TestVerif_C07_codec(t *testing.T) {
 				rejected++
 				classes.add("deviation:" + kind + ":" + c07ErrClass(res.err))
 			default:
-				if res.node != nil && c07Equiv(sh.D, res.node, "node") == "" {
+				if res.node != nil && c07Equiv(sh.D, res.node, "") == "" {
 					okSame++
 				} else {
 					okOther++
@@ -532,18 +551,20 @@ func TestVerif_C07_codec(t *testing.T) {
 				classes.add("reader:panic")
 			case res.err != nil:
 				classes.add("reader:" + name + ":valid-encoding-rejected(counted):" + c07ErrClass(res.err))
-			case res.node != nil && c07Equiv(sh.D, res.node, "node") == "":
+			case res.node != nil && c07Equiv(sh.D, res.node, "") == "":
 				classes.add("reader:" + name + ":equivalent")
 			default:
 				classes.add("reader:" + name + ":different-node-without-error(counted)")
 			}
 		}
+		// (a short read shifts the stream, after which arbitrary bytes are taken as length prefixes
+		// and up to 1 GiB is allocated per element: every offset for the designated shapes; in the
+		// thorough tier also every structural offset of every other shape)
 		reader("one-byte", &c07SplitReader{data: enc, oneByte: true}, 0)
 		for s := 1; s < len(enc); s++ {
-			if !full && !isMark[s] {
-				continue
+			if designated && full || verifmc.Thorough() && isMark[s] {
+				reader("split", &c07SplitReader{data: enc, split: s}, s)
 			}
-			reader("split", &c07SplitReader{data: enc, split: s}, s)
 		}
 		r.Add("evaluations", rev)
 		r.Add("reader_inputs", rev)
@@ -554,17 +575,24 @@ func TestVerif_C07_codec(t *testing.T) {
 	r.Extra["shapes"] = len(shapes)
 }
 
-// c07HeavyDesignated: the shapes whose allocation-heavy deviations are executed (one at a time).
+// c07HeavyDesignated: the 21 shapes (partial key of one nibble: 6 leaves, 3 x 5 branches) whose
+// allocation-heavy deviations (up to 64 MiB) and whose reader splits at every offset are executed.
 func c07HeavyDesignated(name string) bool {
-	quick := map[string]bool{
-		"leaf pk=1 v=01": true, "leaf pk=1 v=33inline": true,
-		"branch pk=1 v=none c0=hashed": true, "branch pk=1 v=33inline c0=inline": true,
+	if !strings.Contains(name, " pk=1 ") {
+		return false
 	}
-	if quick[name] {
-		return true
+	if !strings.HasPrefix(name, "branch") {
+		return !strings.Contains(name, "16384")
 	}
-	return verifmc.Thorough() && strings.Contains(name, " pk=1 ") &&
-		(!strings.HasPrefix(name, "branch") || strings.HasSuffix(name, " c0=inline") || strings.HasSuffix(name, " c0=hashed"))
+	if !(strings.Contains(name, "v=none") || strings.Contains(name, "v=01") || strings.Contains(name, "v=33hashed")) {
+		return false
+	}
+	for _, k := range []string{" c0=inline", " c0=hashed", " c5=inlinebranch", " c7=hashed,c8=inline", " all16=mixed"} {
+		if strings.HasSuffix(name, k) {
+			return true
+		}
+	}
+	return false
 }
 
 func c07Replay(b []byte) string {
